@@ -432,7 +432,8 @@ func (w *world) cfgLine() string {
 }
 
 // l2Clamps: the code under test ignores a new-head event for a block above the current head (detected, see
-// probeStaleEvent; proposed-fixes/C16-stale-new-head-event.diff).
+// probeStaleEvent; in /repo since 868e51a — if the clamp is lost the model follows and the stale-event scenario reports
+// head-block-pruned-after-stale-event / shared-floor-above-head-after-stale-event, which are no known findings any more).
 var l2Clamps atomic.Bool
 
 // readerGuard: the legacy historical reader of the code under test repeats its retention check after every
